@@ -275,7 +275,7 @@ func RandomGraph(r *rand.Rand, maxTypes int, opts Options) *tg.Graph {
 		out.Types = append(out.Types, tg.TypeDef{Name: g.names[i], Body: g.body(g.sorts[i])})
 	}
 	g.cur = n
-	defer func() { repair(r, out) }()
+	defer func() { repair(r, out); DrawOptions(r, out) }()
 	switch x := r.Intn(10); {
 	case x < 5:
 		out.Root = g.object(1)
@@ -292,10 +292,61 @@ func RandomGraph(r *rand.Rand, maxTypes int, opts Options) *tg.Graph {
 	return out
 }
 
+// ---- the option KeysAreOptionalByDefault, per schema OBJECT ----
+
+// DrawOptions: the option belongs to ONE schema object, so the root and every added type draw it independently
+// (one graph in four keeps every object plain, one in eight sets it everywhere). Independently of that, an unmarked
+// property (no `optional` rule) becomes an explicit `optional: false` with probability 1/5 in every object, so that
+// all three markings occur in objects of either setting: in a plain object an unmarked key CARRIES a chain of required
+// references and `optional: true` breaks it; in an object with the option an unmarked key BREAKS it and only
+// `optional: false` carries it.
+func DrawOptions(r *rand.Rand, g *tg.Graph) {
+	mode := r.Intn(8)
+	draw := func() bool {
+		switch mode {
+		case 0, 1:
+			return false
+		case 2:
+			return true
+		}
+		return r.Intn(2) == 0
+	}
+	g.RootOpt = draw()
+	for i := range g.Types {
+		g.Types[i].Opt = draw()
+	}
+	mark := func(n *tg.Node) {
+		n.Walk(func(m *tg.Node) {
+			for _, p := range m.Props {
+				if !p.Val.Optional && r.Intn(5) == 0 {
+					p.Val.Required = true
+				}
+			}
+		})
+	}
+	mark(g.Root)
+	for _, t := range g.Types {
+		mark(t.Body)
+	}
+}
+
+// WithOptions: every setting of the option over the root and the types of g (2^(1+n) graphs sharing the bodies),
+// the all-plain one first.
+func WithOptions(g *tg.Graph, emit func(*tg.Graph)) {
+	n := len(g.Types)
+	for bits := 0; bits < 1<<(n+1); bits++ {
+		c := &tg.Graph{Root: g.Root, RootOpt: bits&1 != 0, Types: append([]tg.TypeDef(nil), g.Types...)}
+		for i := range c.Types {
+			c.Types[i].Opt = bits&(2<<i) != 0
+		}
+		emit(c)
+	}
+}
+
 // ---- structured family (bounded-exhaustive): one template per type ----
 
 // template t with targets a, b (indices into names, len(names) = "missing").
-const nTemplates = 19
+const nTemplates = 20
 
 func arity(t int) int {
 	switch t {
@@ -378,6 +429,10 @@ func tmpl(t int, key string, a, b string) *tg.Node {
 		n.AllOf = []string{a}
 		n.AllOfList = true
 		return n
+	case 19: // property marked `optional: false` (3 is the UNMARKED property)
+		v := ref(a)
+		v.Required = true
+		return obj(v)
 	}
 	return nil
 }
@@ -556,6 +611,7 @@ func DenseGraph(r *rand.Rand) *tg.Graph {
 		out.Types = append(out.Types, tg.TypeDef{Name: g.names[i], Body: b})
 	}
 	out.Root = g.denseObject(2, 3)
+	DrawOptions(r, out)
 	return out
 }
 
@@ -597,5 +653,6 @@ func KeyGraph(r *rand.Rand) *tg.Graph {
 		out.Types = append(out.Types, tg.TypeDef{Name: g.names[i], Body: b})
 	}
 	out.Root = keyObj()
+	DrawOptions(r, out)
 	return out
 }
